@@ -23,16 +23,18 @@ ASSUMPTIONS = [
     "(T = S, N = -Q, W = W); Phi and Gamma from an extended-precision scaling-and-squaring matrix "
     "exponential of the non-dimensional augmented system (no closed form)",
     "n = sqrt(mu / sma^3) with the library's Earth mu (a constant, not the code under test)",
-    "maneuvers are dated at or after the orbit's epoch, in chronological order, and do not overlap "
-    "(they may touch, as CWHelper.vbar_linear's do); maneuver frame is None (components in the "
-    "orbit's own Hill axes); an impulse strictly inside a thrust arc is outside the quantifier",
+    "maneuvers are dated at or after the orbit's epoch and listed in chronological order of their "
+    "start; maneuver frame is None (components in the orbit's own Hill axes).  Facet hill_solution "
+    "uses lists that do not overlap (they may touch, as CWHelper.vbar_linear's do); facet overlap "
+    "uses an impulse strictly inside a thrust arc / two arcs at once, with the superposition of the "
+    "individual responses as reference (the equations are linear)",
     "a continuous maneuver thrusts on [start, stop); an impulse is in effect from its date on",
     "two_orbits: Kepler truth from vf/oracles/twobody.py (universal variables); separation 20..100 m "
-    "and relative speed <= n * separation, rectilinear QSW components; 'second order' = 20 S^2/r (1+|nt|) "
+    "and relative speed <= n * separation, rectilinear QSW components; 'second order' = 30 S^2/r (1+|nt|) "
     "with S the largest separation met on the way (calibrated: <= 9.2 S^2/r over 3000 cases), and the "
     "discrepancy must fall to <= 0.3 of itself when the separation is halved",
     "helper: outcomes are read at the dates carried by the maneuvers the helper returns (its period "
-    "is rounded to a microsecond), tolerance = 1e-10 of the distances involved + 10 us of motion (the rounding is <= 1 us)",
+    "is rounded to a microsecond), tolerance = 1e-10 of the distances involved + 15 us of motion (the rounding is <= 1 us)",
     "EOP configuration missing-pass (dates are only used for their differences)",
 ]
 LEVEL_TEXT = "exploration"
@@ -264,12 +266,91 @@ def check_solution(case):
             raise Violation(
                 "hill-solution",
                 f"{case['ori']} a={case['sma']:.6g} m, t={t!r} s ({len(case['mans'])} maneuvers, api {api}): "
-                f"component {j} is {v[j]!r}, Hill's equations give {want[j]!r} ({r:.3g} x tol)",
+                f"component {j} is {float(v[j])!r}, Hill's equations give {float(want[j])!r} ({r:.3g} x tol)",
                 component=j, ratio=r)
     # the orbit the propagation started from is untouched
     if not np.array_equal(np.asarray(orb.base, float), x0) or offset_us(orb, epoch) != 0:
         raise Violation("source-mutated", "propagating changed the initial orbit")
     return dict(nt=nt_max > 0.1, cls=classes(case, [f"api:{api}"]), ratio=worst)
+
+
+# ------------------------------------------------------------------ overlap
+
+
+def draw_overlapping(d, sma):
+    """2-4 maneuvers in chronological order of their start, at least one pair overlapping: an impulse
+    strictly inside a thrust arc, or two arcs thrusting at once."""
+    P = period_us(sma)
+    t0 = int(d.u(0, P / 2))
+    dur = 2 * int(d.u(5_000_000, P / 2))
+    mans = [dict(kind="cont", t=t0, dur=dur, accel=[d.signed(1e-6, 1e-2) for _ in range(3)])]
+    for _ in range(d.int(1, 3)):
+        t = t0 + 1 + int(d.u(0.0, 1.0) * (dur - 2)) if d.int(0, 3) else t0 + dur + int(d.u(0, P / 4))
+        if d.coin():
+            mans.append(dict(kind="imp", t=t, dv=[d.signed(1e-3, 2.0) for _ in range(3)]))
+        else:
+            m = dict(kind="cont", t=t, dur=2 * int(d.u(500_000, P / 4)))
+            m["accel" if d.coin() else "dv"] = [d.signed(1e-4, 1e-2) for _ in range(3)]
+            mans.append(m)
+    mans.sort(key=lambda m: m["t"])
+    return mans
+
+
+def overlap_active(mans, k):
+    """True if, at time k, a maneuver listed after a thrust arc in progress has already started."""
+    for i, a in enumerate(mans):
+        if a["kind"] == "cont" and a["t"] <= k < a["t"] + a["dur"]:
+            return any(b["t"] <= k for b in mans[i + 1:])
+    return False
+
+
+@st.composite
+def overlap_case(draw, shard, tier):
+    d = D(draw)
+    sma, ori, k0 = draw_target(d)
+    mans = draw_overlapping(d, sma)
+    return dict(sma=sma, ori=ori, k0=k0, x0=draw_state(d), mans=mans, qs=draw_queries(d, sma, mans, d.int(3, 6)))
+
+
+def check_overlap(case):
+    orb, epoch = make_orbit(case)
+    n = mean_motion(case["sma"])
+    events = oracle_events(case["mans"])
+    x0 = np.array(case["x0"], float)
+    worst = 0.0
+    nt = False
+    last = max(m["t"] + m.get("dur", 0) for m in case["mans"])
+    for k in case["qs"]:
+        res = orb.propagate(at(epoch, k))
+        t = k * US
+        want, scale = hill.superpose(n, x0, events, t, case["ori"])
+        # beyond walks back and forth in time through overlapping maneuvers: allow for each leg
+        tol = tol_state(n, scale, n * max(abs(t), min(max(t, 0.0), last * US)), 2 * len(events) + 1)
+        v = state_of(res)
+        r = float(np.max(np.abs(v - want) / tol))
+        worst = max(worst, r)
+        active = overlap_active(case["mans"], k)
+        nt = nt or active
+        if r > 1:
+            j = int(np.argmax(np.abs(v - want) / tol))
+            raise Violation(
+                "hill-solution-overlap",
+                f"{case['ori']} a={case['sma']:.6g} m, t={t!r} s, maneuvers starting at "
+                f"{[m['t'] * US for m in case['mans']]} s ({'/'.join(m['kind'] for m in case['mans'])}): component {j} "
+                f"is {float(v[j])!r}, superposition of the maneuvers' responses gives {float(want[j])!r} ({r:.3g} x tol)",
+                t_us=k, component=j, ratio=r, overlap_active=active)
+    return dict(nt=nt, cls=classes(case), ratio=worst)
+
+
+def maneuver_inside_thrust_arc(facet, case, kind, msg, data):
+    """propagate() returns as soon as the date falls inside a ContinuousMan: maneuvers listed after
+    that arc which have already started (an impulse during the burn, a second overlapping burn) are
+    not applied until the arc is over."""
+    return (facet == "overlap" and kind == "hill-solution-overlap" and "t_us" in data
+            and overlap_active(case["mans"], data["t_us"]))
+
+
+FINDINGS = {"C16/maneuver-inside-thrust-arc": maneuver_inside_thrust_arc}
 
 
 # ------------------------------------------------------------------ composition / inverse
@@ -470,7 +551,7 @@ def check_two_orbits(case):
     # gravity gradient are ~ 3 n^2 S^2 / r; calibration over 3000 cases: err <= 9.2 S^2 / r for every |nt| <= 13
     x0q = np.array(case["x0"], float)
     size = max(float(np.linalg.norm(np.asarray(hill.advance(n, x0q, t * j / 12), float)[:3])) for j in range(13))
-    bound = 20.0 * size**2 / case["sma"] * (1 + abs(n * t))
+    bound = 30.0 * size**2 / case["sma"] * (1 + abs(n * t))
     floor = 2e-12 * case["sma"] * (1 + abs(n * t))
     if errs[0] > bound + floor:
         raise Violation("not-second-order", f"{case['ori']} a={case['sma']:.6g} m, t={t} s: CW differs from the "
@@ -598,7 +679,7 @@ def check_helper(case):
     else:
         announced = np.array([0, y_hold + dist, 0, 0, 0, 0])
     speed = n * L + (case["speed"] if kind == "vbar" else 0.0)
-    tol_p = 1e-10 * L * (1 + n * t_end * US) ** 2 + 1e-5 * speed
+    tol_p = 1e-10 * L * (1 + n * t_end * US) ** 2 + 1.5e-5 * speed
     tol = np.array([tol_p] * 3 + [tol_p * n + 1e-16] * 3)
     if kind == "vbar":
         tol[3:] += 4 * EPS * case["speed"]
@@ -648,16 +729,19 @@ def _setup(shard):
 FACETS = [
     Facet("hill_solution", sol_case, check_solution, setup=_setup,
           rule="|n t| > 0.1 for some query (all three axes always carry position and velocity)",
-          quick=(12, 500), thorough=(24, 5000)),
+          quick=(12, 600), thorough=(24, 4000)),
+    Facet("overlap", overlap_case, check_overlap, setup=_setup,
+          rule="some query falls inside a thrust arc after a later-listed maneuver has started",
+          quick=(6, 300), thorough=(12, 3000)),
     Facet("composition", comp_case, check_composition, setup=_setup,
-          rule="|n t1| > 0.1 and |n t2| > 0.1", quick=(6, 500), thorough=(12, 5000)),
+          rule="|n t1| > 0.1 and |n t2| > 0.1", quick=(6, 400), thorough=(12, 4000)),
     Facet("impulse", imp_case, check_impulse, setup=_setup,
-          rule="every case (an impulsive maneuver is present by construction)", quick=(8, 400), thorough=(16, 4000)),
+          rule="every case (an impulsive maneuver is present by construction)", quick=(8, 350), thorough=(16, 3000)),
     Facet("tnw_is_permuted_qsw", perm_case, check_permutation, setup=_setup,
-          rule="|n t| > 0.1 for some query", quick=(6, 400), thorough=(12, 4000)),
+          rule="|n t| > 0.1 for some query", quick=(6, 350), thorough=(12, 3000)),
     Facet("two_orbits", kep_case, check_two_orbits, setup=_setup,
-          rule="|n t| > 0.1", quick=(8, 400), thorough=(16, 4000)),
+          rule="|n t| > 0.1", quick=(8, 350), thorough=(16, 3000)),
     Facet("helper", helper_case, check_helper, setup=_setup,
           rule="every case: one CWHelper scenario measured with the library's CW and with the oracle",
-          quick=(8, 400), thorough=(16, 4000)),
+          quick=(8, 450), thorough=(16, 3000)),
 ]
